@@ -49,7 +49,7 @@ PROP = {'gen': [],
               'automata) + model/implementation correspondence with crash observation in a child process',
  'design_ref': 'DESIGN.md 6.2',
  'n_quick': 2500,
- 'n_thorough': 40000,
+ 'n_thorough': 20000,
  'shard': 125,
  'level': 'proof',
  'trusted_base': [KERNEL,
